@@ -3,7 +3,7 @@ most once and leaves the unmatched set exactly when it is matched."""
 from pyvc.contract import contract, define, fields
 
 D = "sqlglot/diff.py"
-fields(_unmatched_source_nodes="set", _unmatched_target_nodes="set")
+fields(_unmatched_source_nodes="set", _unmatched_target_nodes="set", args="dict")
 
 define("pair_in", "lambda ms, s, t: has(ms, (s, t))")
 # matched and unmatched are disjoint, and the matching is a partial injection
@@ -35,4 +35,14 @@ contract(
     ghost={"post_uses_final_locals": True},
     opaque={"heappop": dict(havoc=["candidate_matchings[]"], returns="tuple:any,any,any,Expression,Expression")},
     loops={0: dict(fp="candidate_matchings", inv=["acct(self, matching_set)", "only_matched_leave(self, matching_set)"])},
+)
+
+# "paired nodes have the same type": the matcher only ever pairs nodes for which _is_same_type holds
+contract(
+    D, "_is_same_type", props=["C20"],
+    types={"source": "Expression", "target": "Expression"},
+    ensures=["implies(truthy(result), same_class(source, target))", "is_bool(result)"],
+    modifies=[],
+    inline=["this"],
+    must_fail=["not truthy(result)"],
 )
